@@ -71,6 +71,36 @@ def main():
     with open(os.path.join(VERIF, "mutants", "RESULTS.md"), "w") as f:
         f.write("\n".join(out) + "\n")
     print("wrote seeded/RESULTS.md and mutants/RESULTS.md")
+    splice_design(rows, m, rec, ben)
+
+
+def splice_design(rows, m, rec, ben):
+    """Section 10 of DESIGN.md is generated from the recorded outcomes."""
+    dp = os.path.join(VERIF, "DESIGN.md")
+    s = open(dp).read()
+    b, e = "<!-- BEGIN:S10 -->", "<!-- END:S10 -->"
+    if b not in s:
+        return
+    out = [b, "",
+           "| change | breaks | needs, to manifest | quick checks that report it | also run, silent |", "|---|---|---|---|---|"]
+    for sid, target, change, needs, caught, silent, other, first in rows:
+        out.append(f"| `seeded/{sid}` {change} | {target} | {needs} | {', '.join(caught) or 'none'} | {', '.join(silent + other) or '-'} |")
+    out += ["", "Hand-written mutants (`mutants/catalogue.py`, run by `./cvrun selftest`):", "",
+            "| mutant | what it does | reported by | silent |", "|---|---|---|---|"]
+    for mu in m.M:
+        r = rec.get(mu["name"], {})
+        ck = r.get("checks", {})
+        out.append(f"| {mu['name']} | {mu['note']} | {', '.join(c for c, v in sorted(ck.items()) if v == 'caught') or r.get('status', 'not run')} | "
+                   f"{', '.join(c for c, v in sorted(ck.items()) if v != 'caught') or '-'} |")
+    out += ["", "Benign refactorings (`./cvrun selftest --benign`, all 20 quick checks each; any alarm would be a false alarm):", ""]
+    for mu in m.BENIGN:
+        r = ben.get(mu["name"], {})
+        al = [c for c, v in sorted(r.get("checks", {}).items()) if v != "silent"]
+        out.append(f"* `{mu['name']}` ({mu['note']}): " + (("ALARMS " + ", ".join(al)) if al else (f"silent on {len(r.get('checks', {}))} checks" if r else "not run yet")))
+    out += ["", e]
+    s = s[:s.index(b)] + "\n".join(out) + s[s.index(e) + len(e):]
+    open(dp, "w").write(s)
+    print("spliced DESIGN.md section 10")
 
 
 if __name__ == "__main__":
